@@ -1,5 +1,62 @@
+import PsiModel.Reject
 import Drivers.Common
-/-! Stub: replaced by the driver of the `Reject` model. -/
+import Drivers.PData
+/-!
+Line protocol of the `reject` model (C17).
+
+  mode abs|amp                                         start a coroutine with that criterion
+  send TH plain SHAPE VALUES                            one batch (plain ndarray), threshold TH in force
+  send TH pd SHAPE VALUES S0 NUM/DEN CHAN META           one batch (PipelineData)
+
+TH and VALUES are integers (the harness scales the lattice by 4).
+Result: `ok mask=<bits> fwd=<rows separated by ;|none> shape=… [md=… s0=… fs=… ch=…]` or `err <class>`.
+-/
 namespace Psi.Driver.Reject
-def main : IO Unit := pure ()
+open Psi.Driver Psi.PData Psi.Reject
+
+structure St where
+  mode : Mode := .absValue
+  alive : Bool := true
+
+def showRows (r : Option (List (List Int))) : String :=
+  match r with
+  | none => "none"
+  | some rows => ";".intercalate (rows.map showList)
+
+def showOut (annot : Bool) (o : Out) : String :=
+  let head := s!"ok mask={showBits o.mask} fwd={showRows o.forwarded} shape={showList o.shape}"
+  if o.forwarded.isNone then s!"ok mask={showBits o.mask} fwd=none"
+  else if annot then
+    let md := match o.metadata with | some m => Psi.Driver.PData.showMeta m | none => "-"
+    s!"{head} md={md} s0={o.s0} fs={Psi.Driver.PData.showRat o.fs} ch={Psi.Driver.PData.showChan o.channel}"
+  else head
+
+def showRErr : RErr → String
+  | .valueError => "ValueError"
+  | .stopIteration => "StopIteration"
+  | .other e => Psi.Driver.PData.showErr e
+
+def doSend (s : St) (th : Int) (b : Batch) : St × String :=
+  match Psi.Reject.run s.mode s.alive [(th, b)] with
+  | [.ok o] => (s, showOut b.annotated o)
+  | [.error e] => ({ s with alive := false }, s!"err {showRErr e}")
+  | _ => (s, "bad-op")
+
+def step (s : St) (ws : List String) : St × String :=
+  match ws with
+  | ["mode", "abs"] => ({ mode := .absValue, alive := true }, "ok")
+  | ["mode", "amp"] => ({ mode := .amplitude, alive := true }, "ok")
+  | ["send", th, "plain", shape, vals] =>
+    (match parseInt? th, parseNats? shape, parseInts? vals with
+     | some th, some shape, some vals => doSend s th { annotated := false, shape := shape, values := vals }
+     | _, _, _ => (s, "bad-op"))
+  | ["send", th, "pd", shape, vals, s0, fs, ch, md] =>
+    (match parseInt? th, parseNats? shape, parseInts? vals, parseInt? s0, Psi.Driver.PData.parseRat? fs,
+           Psi.Driver.PData.parseChan? ch, Psi.Driver.PData.parseMeta? md with
+     | some th, some shape, some vals, some s0, some fs, some ch, some md =>
+       doSend s th { annotated := true, shape := shape, values := vals, s0 := s0, fs := fs, channel := ch, metadata := md }
+     | _, _, _, _, _, _, _ => (s, "bad-op"))
+  | _ => (s, "bad-op")
+
+def main : IO Unit := Psi.Driver.run ({} : St) step
 end Psi.Driver.Reject
